@@ -28,6 +28,9 @@ form) is a fixed point of reader(writer(.)). Failing rows are reported per pair 
 other), so a known row does not hide a different one.
 Added while testing against seeded changes: Also: read converters are always applied once to [<file>.read()] (never
 block-wise) and internal_size_sha_file_byname goes through filtered_input_file.
+Third round: writers-see-whole-content — no call of filtered_output_bytes is given `[chunk]` for the variable of an enclosing loop or
+comprehension; accelerator-rules-under-accelerator-path — in bzr/transform.py:_create_files the hardlink guard looks rules up under the
+second (accelerator-side) name of each (tree path, accelerator path) pair.
 Does not decide: strings longer than the table's bound (the converters are length-independent: one regex substitution).
 """
 TO_LF, TO_CRLF, NATIVE = "_to_lf_converter", "_to_crlf_converter", "_native_output"
@@ -188,9 +191,58 @@ def run(ctx):
     fi = repo.func(FI, "filtered_input_file")
     li = [n for n in walk_own(fi) if isinstance(n, ast.For)]
     ctx.check("application-order", f"{FI}:filtered_input_file", len(li) == 1 and norm(li[0].iter) == "filters" and any(norm(c.func) == f"{norm(li[0].target)}.reader" for c in calls_in(li[0])), "readers are applied in stack order", construct=norm(li[0].iter) if li else "")
-
+    # ---- write converters see the whole content too (the NUL decision is per file, not per chunk) ----------------------
+    n_out = 0
+    for rel in repo.python_files():
+        if "/tests/" in rel or "filtered_output_bytes(" not in repo.text(rel):
+            continue
+        tree_ = repo.module(rel).tree
+        parents_ = {}
+        for n_ in ast.walk(tree_):
+            for ch in ast.iter_child_nodes(n_):
+                parents_[id(ch)] = n_
+        for c in (n_ for n_ in ast.walk(tree_) if isinstance(n_, ast.Call) and (call_attr(n_) or norm(n_.func)).split(".")[-1] == "filtered_output_bytes" and n_.args):
+            n_out += 1
+            a0 = c.args[0]
+            loop_vars = set()
+            cur = c
+            while id(cur) in parents_:
+                cur = parents_[id(cur)]
+                if isinstance(cur, (ast.For, ast.AsyncFor)):
+                    loop_vars |= {n_.id for n_ in ast.walk(cur.target) if isinstance(n_, ast.Name)}
+                if isinstance(cur, (ast.ListComp, ast.GeneratorExp, ast.SetComp, ast.DictComp)):
+                    for gen in cur.generators:
+                        loop_vars |= {n_.id for n_ in ast.walk(gen.target) if isinstance(n_, ast.Name)}
+                if isinstance(cur, (ast.FunctionDef, ast.AsyncFunctionDef)):
+                    break
+            piecewise = isinstance(a0, (ast.List, ast.Tuple)) and len(a0.elts) == 1 and isinstance(a0.elts[0], ast.Name) and a0.elts[0].id in loop_vars and any(w in a0.elts[0].id.lower() for w in ("chunk", "line", "block", "piece", "part"))
+            ctx.check("writers-see-whole-content", f"{rel}:L{c.lineno}", not piecewise, "filtered_output_bytes is given the whole content of a file, not one chunk of a loop at a time", construct=norm(c)[:90], message=f"{rel}:L{c.lineno} converts a file chunk by chunk on the way out ({norm(c)[:80]}): the NUL test of the converters then sees single chunks, binary content whose NUL lies in another chunk is converted, while the reader decides on the whole file — binary content is changed by checkout and a fresh tree reports changes")
+    ctx.require(n_out >= 3, f"only {n_out} calls of filtered_output_bytes found (hand-confirmed: >= 5)")
+    # ---- the hardlink guard asks for the rules of the accelerator tree's own path --------------------------------------
+    TF = "breezy/bzr/transform.py"
+    fcf = repo.func(TF, "_create_files")
+    acc = [c for c in (n_ for n_ in ast.walk(fcf) if isinstance(n_, ast.Call)) if call_attr(c) == "iter_search_rules" and call_recv(c) == "accelerator_tree" and c.args]
+    ctx.require(len(acc) >= 1, f"{TF}:_create_files: accelerator_tree.iter_search_rules(...) not found")
+    parents_cf = {}
+    for n_ in ast.walk(fcf):
+        for ch in ast.iter_child_nodes(n_):
+            parents_cf[id(ch)] = n_
+    for c in acc:
+        second = set()
+        cur = c
+        while id(cur) in parents_cf:
+            cur = parents_cf[id(cur)]
+            gens = cur.generators if isinstance(cur, (ast.ListComp, ast.GeneratorExp, ast.SetComp, ast.DictComp)) else []
+            tgts = [g_.target for g_ in gens] + ([cur.target] if isinstance(cur, ast.For) else [])
+            for t in tgts:
+                if isinstance(t, ast.Tuple) and len(t.elts) == 2 and isinstance(t.elts[1], ast.Name):
+                    second.add(t.elts[1].id)
+        a0 = c.args[0]
+        ok_acc = isinstance(a0, (ast.List, ast.Tuple)) and len(a0.elts) == 1 and isinstance(a0.elts[0], ast.Name) and a0.elts[0].id in second
+        ctx.check("accelerator-rules-under-accelerator-path", f"{TF}:_create_files", ok_acc, "the rules that forbid reusing an accelerator file are looked up under the accelerator tree's path of the (tree path, accelerator path) pair", construct=norm(c)[:90], message=f"_create_files asks accelerator_tree.iter_search_rules({norm(a0)[:40]}) — not the accelerator-side path of each pair: after an uncommitted rename across a rule boundary the guard consults the wrong name, a file stored in its working-tree (converted) form is hard-linked into the new tree and a fresh `branch --hardlink` reports it as modified")
 
 MUTANTS = [
+    Mutant("hardlink guard looks rules up under the tree path", "breezy/bzr/transform.py", "                if not next(accelerator_tree.iter_search_rules([ap]))\n", "                if not next(accelerator_tree.iter_search_rules([tp]))\n", expect="accelerator-rules-under-accelerator-path"),
     Mutant("to-LF converts the CRLF of CR CR LF again (fix 44a15cd reverted)", EF, '        return [_DOS_NL_RE.sub(b"\\n", content)]\n', '        return [content.replace(b"\\r\\n", b"\\n")]\n', expect="conversion-table"),
     Mutant("to-CRLF looks only at the first chunk for NUL", EF, '    content = b"".join(chunks)\n    if b"\\x00" in content:\n        return [content]\n    else:\n        return [_UNIX_NL_RE', '    content = b"".join(chunks)\n    if b"\\x00" in chunks[0]:\n        return [content]\n    else:\n        return [_UNIX_NL_RE', expect="nul-guard"),
     Mutant("size/sha of filtered files computed block-wise", FI, "        if filters:\n            f, _size = filtered_input_file(f, filters)\n        return osutils.size_sha_file(f)\n", "        if filters:\n            out = []\n            for block in osutils.file_iterator(f):\n                chunks = [block]\n                for filter in filters:\n                    if filter.reader is not None:\n                        chunks = filter.reader(chunks)\n                out.extend(chunks)\n            f = BytesIO(b\"\".join(out))\n        return osutils.size_sha_file(f)\n", expect="readers-see-whole-file"),
